@@ -20,6 +20,7 @@ package jwx
 
 import (
 	"crypto/ecdsa"
+	"crypto/ed25519"
 	"errors"
 
 	"github.com/lestrrat-go/jwx/v2/jwa"
@@ -61,10 +62,22 @@ func SupportedAlgorithmsAsStrings() []string {
 // AlgorithmFitsKey reports whether the signature algorithm may be used with the given key (a crypto public/private key or a
 // jwk.Key). The JWX library checks that the algorithm's family fits the key type, but not that an ECDSA algorithm fits
 // the key's curve (RFC 7518 section 3.4: ES256 is P-256 with SHA-256, ES384 is P-384 with SHA-384, ES512 is P-521 with
-// SHA-512): it verifies e.g. an ES256 signature made with a P-384 key. For other key types it returns true.
+// SHA-512): it verifies e.g. an ES256 signature made with a P-384 key. An Ed25519 public key fits EdDSA only, and only if it
+// has the length of an Ed25519 public key. For other key types it returns true.
 func AlgorithmFitsKey(alg jwa.SignatureAlgorithm, key interface{}) bool {
 	var curve string
 	switch k := key.(type) {
+	case ed25519.PublicKey:
+		// crypto/ed25519 panics when it is asked to verify with a public key of another length. Keys resolved for remote parties
+		// can have any length: the JWK parser and the DID library do not check it (did:jwk, did:web, did:key documents).
+		return alg == jwa.EdDSA && len(k) == ed25519.PublicKeySize
+	case *ed25519.PublicKey:
+		return k != nil && alg == jwa.EdDSA && len(*k) == ed25519.PublicKeySize
+	case jwk.OKPPublicKey:
+		if k.Crv() == jwa.Ed25519 {
+			return alg == jwa.EdDSA && len(k.X()) == ed25519.PublicKeySize
+		}
+		return true
 	case *ecdsa.PublicKey:
 		curve = k.Params().Name
 	case ecdsa.PublicKey:
